@@ -40,6 +40,8 @@ DiffSpec(a, b) ==
   ELSE LET ks == SASort(KeySet(a) \ KeySet(b)) IN
        IF IsMap(a) THEN <<"Bucket", [j \in 1..Len(ks) |-> <<ks[j], ValIn(a, ks[j])>>]>>
        ELSE <<"Set", KeysOnly(KeySet(a) \ KeySet(b))>>
+\* isdisjoint(other): no common key (any iterable as the other operand)
+DisjointSpec(a, b) == <<"bool", IF KeySet(a) \cap KeySet(b) = {} THEN 1 ELSE 0>>
 \* the binary ^ is offered by the set types only and returns a set of the left operand's kind
 XorSpec(a, b) == <<a.kind, KeysOnly((KeySet(a) \ KeySet(b)) \cup (KeySet(b) \ KeySet(a)))>>
 
